@@ -16,6 +16,7 @@ import time
 
 VERIF = os.path.dirname(os.path.dirname(os.path.abspath(__file__)))
 R = "pylife/stress/rainflow/"
+V = "pylife/vmap/"
 
 MUTANTS = [
     # ---- C01: carry-over between chunks
@@ -55,6 +56,37 @@ MUTANTS = [
      "peak_turns = diffs[:-1] * diffs[1:] < 0.0", "peak_turns = diffs[:-1] * diffs[1:] <= 0.0"),
     ("c03-fkm-signed-max", "C03", R + "fkm.py",
      "if np.abs(current) > max_turn:", "if current > max_turn:"),
+    # ---- C20: VMAP round trip and roll-back
+    ("c20-no-geometry-rollback", "C20", V + "vmap_export.py",
+     "                del geometry_group[geometry_name]\n", "                pass\n"),
+    ("c20-groupby-unsorted", "C20", V + "vmap_export.py",
+     "element_connectivities = mesh.groupby('element_id')", "element_connectivities = mesh.groupby('element_id', sort=False)"),
+    ("c20-connectivity-sorted", "C20", V + "vmap_export.py",
+     "c = element_connectivity[1].index.get_level_values('node_id').values",
+     "c = np.sort(element_connectivity[1].index.get_level_values('node_id').values)"),
+    ("c20-elnodal-ids-sorted", "C20", V + "vmap_export.py",
+     "element_ids = mesh.index.get_level_values('element_id').drop_duplicates().values",
+     "element_ids = np.sort(mesh.index.get_level_values('element_id').drop_duplicates().values)"),
+    ("c20-import-sorts-nodes", "C20", V + "vmap_import.py",
+     "index_np[1, i:i_next] = node_ids", "index_np[1, i:i_next] = np.sort(node_ids)"),
+    ("c20-ids-int16", "C20", V + "vmap_export.py",
+     "points_group.create_dataset('MYIDENTIFIERS', data=np.reshape(node_ids_info.index, (-1, 1)), dtype=np.int32,",
+     "points_group.create_dataset('MYIDENTIFIERS', data=np.reshape(node_ids_info.index, (-1, 1)), dtype=np.float32,"),
+    # regressions of the fix: commits
+    ("c20-revert-2d-noz", "C20", V + "vmap_import.py",
+     "columns = ['x', 'y', 'z'][:coordinates.shape[1]],", "columns = ['x', 'y', 'z'],"),
+    ("c20-revert-setname", "C20", V + "vmap_import.py",
+     "        if isinstance(set_name, bytes):\n", "        if True:\n"),
+    ("c20-revert-mixed", "C20", V + "vmap_export.py",
+     "material_type, section_type, node_ids_list))], dtype=dt_type).T",
+     "material_type, section_type, np.asarray(node_ids_list)))], dtype=dt_type).T"),
+    ("c20-revert-dimension", "C20", V + "vmap_export.py",
+     "        self._dimension = 2\n        if 'z' in node_ids_info:", "        if 'z' in node_ids_info:"),
+    ("c20-revert-atomic-group", "C20", V + "vmap_export.py",
+     "            if group_name in parent_group:\n                del parent_group[group_name]\n            raise",
+     "            raise"),
+    ("c20-revert-counter-rollback", "C20", V + "vmap_export.py",
+     "                geometry_group.attrs['MYSIZE'] = variable_count\n", ""),
 ]
 
 
